@@ -892,6 +892,35 @@ func TestC14Regress(t *testing.T) {
 			}
 		}
 	}
+	// A line feed inside a chunk extension: for every reader that ends lines at LF the chunk-size line ends there,
+	// for a strict one the message is malformed. Nobody may read on to the next CR: "5;x\nAAAAA\r\n" would be one
+	// size line, the digits of the next size line the data, and the 40 bytes of the second chunk a request.
+	smuggled40 := ("0\r\n\r\nGET /smuggled HTTP/1.1\r\nHost: x\r\n\r\n" + strings.Repeat("p", 40))[:40]
+	for _, ext := range []string{";x", ";x=1", ";a=\"q\"", " ;x", ";"} {
+		for _, stop := range []int{-1, 0, 3} {
+			raw := "POST /up HTTP/1.1\r\nHost: example.com\r\nTransfer-Encoding: chunked\r\n\r\n5" + ext + "\nAAAAA\r\n00028\r\n" + smuggled40 + "\r\n0\r\n\r\n" + "GET /after HTTP/1.1\r\nHost: example.com\r\n\r\n"
+			lg := &readLog{}
+			curLog, curProg = lg, Program{Sizes: []int{4096}, Stop: stop}
+			obs, res, _ := server(4096, 0).Run([][]byte{[]byte(raw)}, sconn.EOF)
+			rec.Case(true, ev.HashString("lf-in-chunk-extension", ext, fmt.Sprint(stop)), "regress-lf-in-chunk-extension")
+			bad := ""
+			if res.Panic != nil {
+				bad = fmt.Sprintf("panic: %v", res.Panic)
+			}
+			for i, o := range obs {
+				if !(i == 0 && o.URI == "/up") && o.URI != "/after" {
+					bad = fmt.Sprintf("handler invocation #%d is %s %s: chunk data was served as a request (the stream gave %q, err=%v)", i, o.Method, o.URI, lg.data, lg.err)
+				}
+			}
+			if bad == "" && lg.err == nil && stop < 0 && string(lg.data) != "AAAAA"+smuggled40 {
+				bad = fmt.Sprintf("the stream gave %q without an error; with LF as the line end the body is %q, otherwise the message is malformed", lg.data, "AAAAA"+smuggled40)
+			}
+			if bad != "" {
+				ev.Fail(prop, "regress", map[string]interface{}{"case": "lf-in-chunk-extension", "ext": ext, "stop": stop}, bad)
+				t.Errorf("chunk extension %q + LF stop=%d: %s", ext, stop, bad)
+			}
+		}
+	}
 	// Line ends that hertz accepts although they are not CRLF (a bare LF ends a trailer line as it ends a
 	// header line): whatever it accepts when the handler reads the stream to its end it has to accept the
 	// same way when it drains the rest behind a handler that stopped early. After POST /up the requests
